@@ -208,6 +208,7 @@ func c14Scenario1(c *core.Ctx, si int, sc c14Scenario, bound int) {
 	key := "scenario " + sc.Name
 	logSize, logName := raceLogSize()
 	bad := false
+	diverged := false
 	for ch.Begin() {
 		if c.Expired() {
 			c.Incomplete("deadline in scenario %q (bound %d) after %d schedules of this shard", sc.Name, bound, ch.Executions)
@@ -223,7 +224,19 @@ func c14Scenario1(c *core.Ctx, si int, sc c14Scenario, bound int) {
 			got[i] = got[i][:0]
 		}
 		tr := sched.Run(bodies, plan)
-		ch.SetTrace(tr.Taken, tr.Menus)
+		if len(tr.Taken) < len(plan) && !useFixed {
+			// the execution had fewer scheduling points than the schedule it
+			// was asked to replay: the code under test is not deterministic
+			// under a fixed schedule (e.g. sync.Pool, map order in golang-set)
+			c.Count("schedule_replay_divergences", 1)
+			c.Incomplete("schedule replay diverged in %q (execution shorter than its plan): scenario abandoned", sc.Name)
+			// still judge this execution's results below, then stop
+			tr.Diverged = false
+			diverged = true
+			ch.SetTrace(append(append([]int{}, tr.Taken...), make([]int, len(plan)-len(tr.Taken))...), append(append([]int{}, tr.Menus...), onesInts(len(plan)-len(tr.Taken))...))
+		} else {
+			ch.SetTrace(tr.Taken, tr.Menus)
+		}
 		if useFixed {
 			ch.Bound = 0 // one execution only
 		}
@@ -274,7 +287,7 @@ func c14Scenario1(c *core.Ctx, si int, sc c14Scenario, bound int) {
 			c.Violation(key+" data-race", fmt.Sprintf("the race detector reported under schedule %v:\n%s", plan, first), rp)
 			bad = true
 		}
-		if bad {
+		if bad || diverged {
 			break
 		}
 		if len(c.R.Outcomes) < 500 {
@@ -404,4 +417,12 @@ func init() {
 		c14Replay(c, rp.Scenario, rp.Plan)
 		return fmt.Sprintf("scenario %q schedule %v: %d violation(s) %v", c14Scenarios[rp.Scenario].Name, rp.Plan, c.R.NViol, c.R.Violations), c.R.NViol > 0
 	}
+}
+
+func onesInts(n int) []int {
+	out := make([]int, n)
+	for i := range out {
+		out[i] = 1
+	}
+	return out
 }
